@@ -83,7 +83,10 @@ FwDbg == <<49,49,48,48,32,65,66,67,68,69,70,71,72,73,32,68,45,49,46,48,50,32,32,
 CrcTxt == <<48,120,49,65,50,98>>                                                          \* "0x1A2b"
 VerBytes == <<9, 9, 2, 7, 8, 5>>
 SelBytes(x) == IF x = "single" THEN <<1, 1, 0, 173>> ELSE IF x = "multi" THEN <<1, 2, 128, 155, 64, 173>>
-               ELSE IF x = "bgm" THEN <<1, 1, 0, 182>> ELSE <<>>
+               ELSE IF x = "bgm" THEN <<1, 1, 0, 182>>               \* one of the three special-cased spellings -> BGM12X
+               ELSE IF x = "bgmneg" THEN <<1, 1, 64, 182>>           \* not special-cased: single entry -> HWCID = the entry (40 B6)
+               ELSE IF x = "bgmand" THEN <<1, 2, 0, 182, 0, 190>>    \* not special-cased, two entries: not convertible for a peripheral
+               ELSE <<>>
 SifText(x) == IF x = "ok" THEN "BRP-SER" ELSE IF x = "star" THEN "*" ELSE "RS485"
 MCNames == << <<155, <<83, 77, 52>>>>, <<190, <<66, 71, 77>>>> >>
 Cmt(name, text) == Item("cmt", name, "", text, <<>>, <<>>)
@@ -131,7 +134,7 @@ IsComp(f, k) == ~Ign(f, k) /\ ~Broken(f, k) /\ ~Skipped(f, k)
 SecIdx(f) == 1..Len(f.secs)
 MustReject(f) ==
     \/ \E k \in SecIdx(f) : Broken(f, k)                                                               \* unknown tag type
-    \/ \E k \in SecIdx(f) : ~Ign(f, k) /\ ~Broken(f, k) /\ CompType(f.secs[k].bt) = T_PERIPH /\ EffSel(f, k) = "multi"
+    \/ \E k \in SecIdx(f) : ~Ign(f, k) /\ ~Broken(f, k) /\ CompType(f.secs[k].bt) = T_PERIPH /\ EffSel(f, k) \in {"multi", "bgmand"}
     \/ \E k \in SecIdx(f) : IsComp(f, k) /\ CompFmt(f.secs[k].bt) = F_BLOB /\ ShapeLoss(f.secs[k].shape)  \* gap / non-zero start in a blob
     \/ \E k \in SecIdx(f) : IsComp(f, k) /\ CompType(f.secs[k].bt) = T_LOADER /\ EffSif(f, k) # "ok"      \* loader without interface
     \/ f.enf /\ ~(f.upd /\ \E k \in SecIdx(f) : ~Ign(f, k))                                             \* no BF3-update marker
@@ -139,7 +142,8 @@ IDesc(f, k) ==
     LET x == f.secs[k]  ty == CompType(x.bt)  es == EffSel(f, k)  pv == PendVer(f, k)
         byfw == ty # T_PERIPH /\ f.fw = "rel"
     IN  [fmt |-> CompFmt(x.bt), type |-> ty,
-         hw |-> IF ty = T_PERIPH /\ es = "single" THEN <<0, 173>> ELSE IF ty = T_PERIPH /\ es = "bgm" THEN <<0, 190>> ELSE CompHw(x.bt),
+         hw |-> IF ty = T_PERIPH /\ es = "single" THEN <<0, 173>> ELSE IF ty = T_PERIPH /\ es = "bgm" THEN <<0, 190>>
+                ELSE IF ty = T_PERIPH /\ es = "bgmneg" THEN <<64, 182>> ELSE CompHw(x.bt),
          intf |-> IF EffSif(f, k) = "ok" THEN <<1>> ELSE CompIntf(x.bt),
          reboot |-> x.reboot, crc |-> IF x.crc # "none" THEN <<0, 0, 26, 43>> ELSE <<>>,
          hasver |-> byfw \/ pv = "v", ver |-> IF byfw THEN <<4, 76, 1, 2, 3>> ELSE IF pv = "v" THEN <<7, 8>> ELSE <<>>,
